@@ -130,6 +130,9 @@ def check_literals(ctx: Ctx, prop_rule: str, env: EnvA, sl, root, lits, what: st
         leaf, elsewhere, rev, cands = m[lit.name]
         inst = f"{env.name}.{what}:{lit.name}"
         if direction == "looser":
+            if leaf is None and lit.optional and not elsewhere:
+                ctx.ob(id_presence, inst, True, sl.where, f"optional pruning '{lit.name}' is not applied (nothing to check)")
+                continue
             if leaf is None and lit.alt and elsewhere:
                 # a pruning alternative: its orientation decides which feasible moves are hidden (C05.c), not whether offered moves are feasible
                 ctx.ob(id_presence, inst, True, sl.where, f"pruning literal present ({show_leaf(elsewhere[0])}); its orientation is C05's concern")
